@@ -38,9 +38,9 @@ COMPONENTS.update({
     "worlds": {"real": ["shimagent.Server (via VerifNewFromConn hook; shimagent.New for construction scenarios)", "shimagent filter", "sshutils/cert validation", "keyid.Unmarshal", "x/crypto ssh/agent client"],
                "stub": ["underlying ssh-agent = reference agent model behind a scripted peer (faults per request index)", "clock = testing/synctest bubble", "transport = in-memory duplex (net.Pipe); unix socket only in construction scenarios"]},
     "worldl": {"real": ["crypki.Signer (Sign, postUserSSHCertificate, NewSignerWithGensignConf)", "tlsutils.TLSClientConfiguration", "internal/backoff", "grpc client + go-grpc-middleware retry", "crypto/tls + crypto/x509 (both sides)", "grpc.Server (endpoints)", "sshutils/key.GetPublicKeysFromBytes"],
-               "stub": ["network = context dialer onto in-memory listeners (bufconn) with refuse / stall / latency / cut", "CA handlers = scripted SigningServer", "clock = testing/synctest bubble", "client certificate files and CA bundle on a real temp directory"]},
+               "stub": ["network = context dialer onto in-memory listeners (bufconn) with refuse / stall / latency / cut", "CA handlers = scripted SigningServer", "clock = testing/synctest bubble", "client certificate files (leaf or leaf + intermediate) and CA bundles on a real temp directory", "optional sibling TLS client configuration with another CA bundle in the same process"]},
     "worlda": {"real": ["yubiattest.Attestor.Attest", "yubiattest checkSignature / verifyPKCS1v15", "crypto/x509 chain verification"],
-               "stub": ["PKI generated by the harness", "slot certificate signature = EM^d mod N computed by the harness", "clock = testing/synctest bubble"]},
+               "stub": ["PKI generated by the harness (two roots, a foreign CA, a foreign CA carrying the first root's name)", "slot certificate signature = EM^d mod N computed by the harness", "clock = testing/synctest bubble"]},
 })
 ASSUMPTIONS = {
     "worldg": ["ssh.PublicKey.Verify, x/crypto agent wire codec and encoding/json are trusted", "entropy is real: key bytes and challenges differ between a run and its replay; oracles use roles and equality classes only",
@@ -56,18 +56,18 @@ ASSUMPTIONS.update({
 })
 MUST_PROBE = {
     "C11": ["linearizable", "transport_disciplined", "runs_with_lock_contention", "purge_during_concurrent_run"],
-    "C20": ["released_by_matching_request", "stayed_blocked_without_matching_request", "unsupported_code_immediate", "waiter_parked_before_cleanup"],
-    "C06": ["accepted_valid_null", "accepted_valid_nonull", "rejected_by_chain_or_clock", "rejected_by_signature"],
+    "C20": ["released_by_matching_request", "stayed_blocked_without_matching_request", "unsupported_code_immediate", "waiter_parked_before_cleanup", "request_on_another_agent_of_the_process"],
+    "C06": ["accepted_valid_null", "accepted_valid_nonull", "rejected_by_chain_or_clock", "rejected_by_signature", "genuine_device_attested_first_on_same_attestor"],
     "C07": ["listing_agrees", "purged_sign_refused", "hardcert_accepted"],
     "C08": ["locked_list_empty", "locked_op_refused", "unlocked_with_passphrase", "wrong_passphrase_refused"],
     "C09": ["differential_hidden_some", "hidden_sign_refused"],
-    "C10": ["hardcert_accepted", "hardcert_refused", "sign_with_hardware_cert", "forward_relayed", "op_under_fault", "construct_failure_reported"],
+    "C10": ["hardcert_accepted", "hardcert_refused", "sign_with_hardware_cert", "forward_relayed", "op_under_fault", "construct_failure_reported", "slow_reply/raw"],
     "C13": ["op_agrees", "served_failure", "slots_agree", "remote_slot_op", "short_slot_line"],
-    "C17": ["signed", "failover_used", "all_endpoints_fail", "retry_backoff_seen", "backoff_in_bounds"],
-    "C18": ["signed", "impostor_before_genuine", "client_cert_presented"],
+    "C17": ["signed", "failover_used", "all_endpoints_fail", "retry_backoff_seen", "backoff_in_bounds", "endpoint_reachable_again_in_later_call"],
+    "C18": ["signed", "impostor_before_genuine", "client_cert_presented", "client_chain_presented", "impostor_from_ca_of_another_tls_client"],
     "C01": ["proof_ok", "all_rejected", "regular_success"],
     "C02": ["regular_success", "unconfigured_algo"],
     "C03": ["regular_success", "regeneration", "cert_signs", "failure_with_old_certs"],
     "C04": ["placement_fired"],
-    "C12": ["clean_eof", "oversize_reached"],
+    "C12": ["clean_eof", "oversize_reached", "large_frame_answered"],
 }
